@@ -13,7 +13,7 @@ CLAIMS = {
             "ServerRef.tla (the declarative reference server) evaluated by TLC judges every recorded execution of the production session task: the request class lattice and random request sequences (with read-back after writes) on TCP and RTU framing are driven through SessionTask::run and each rx/tx/handler event is matched against the reference; exhaustive over the bounded design model, class-exhaustive + sampled over real-size inputs",
             "§7 C01", TRUST + "PDU space covered by boundary classes and sampling"),
     "C02": ("e1-session", "model_checking",
-            "same engine as C01; the decided object is the ordered log of authorization and handler invocations with full arguments (reads compressed losslessly): every call must be the next effect the reference prescribes, and no call may appear for malformed / over-limit / wrong-unit / unknown-function / post-bad-frame input",
+            "same engine as C01; the decided object is the ordered log of authorization and handler invocations with full arguments (reads compressed losslessly): every call must be the next effect the reference prescribes, and no call may appear for malformed / over-limit / wrong-unit / unknown-function / post-bad-frame input (incl. write-multiple requests whose byte count agrees with surplus data); a unit registered twice is served by the handler registered last; a lying byte-count FIELD with the right real length is an open case (strict and lenient servers both accepted)",
             "§7 C02", TRUST + "handler semantics (DefBit/DefReg/holes) are defined by ServerRef.tla and implemented by the harness"),
     "C05": ("e1-session", "model_checking",
             "MbapHead is defined on the concatenated stream only; pipelined streams of 1-4 buffer capacities and every malformed header kind are delivered under systematic chunkings (1-byte, 259/260/261, split at every offset, buffer-filling) and must validate against that chunk-oblivious reference",
@@ -40,7 +40,7 @@ CLAIMS.update({
             "Client.tla + ModbusPdu.tla (EncodeRequest / ClientRequestValid) evaluated by TLC judge every recorded execution of the production request loop: the request lattice (kind x start x count / value-list length incl. 0, limit+-1, overflow, > 65535 values) is submitted through Channel and CallbackSession on TCP and RTU framing; each request must be transmitted as exactly the TLC-computed frame or complete with an error and no tx; TxBounded is an invariant on every state; one frame per request also with stale / future / partial frames arriving meanwhile; all 2^32 arguments of the AddressRange constructor are enumerated on the real code and the per-count summary of what was accepted is judged by RangeSummary.tla against ModbusPdu!ValidRange",
             "§7 C03", TRUST + "AddressRange built with its constructor; FfiChannel path covered by the C18 engine"),
     "C04": ("e2-client", "model_checking",
-            "for every request kind and a range lattice the reply classes (correct, other function bytes, exceptions with all/sampled codes, truncated / extended, byte-count lies, echo variations) are delivered to the production loop; the value handed to the future / callback must be exactly DecodeResponse(request, pdu) as evaluated by TLC",
+            "for every request kind and a range lattice the reply classes (correct, other function bytes, exceptions with all/sampled codes, truncated / extended, byte-count lies, echo variations) are delivered to the production loop; the value handed to the future / callback must be exactly DecodeResponse(request, pdu) as evaluated by TLC (open case: a reply of the right length whose byte-count field disagrees may be taken or refused)",
             "§7 C04", TRUST + "reply space covered by classes + sampling"),
     "C10": ("e2-client", "model_checking",
             "Client.tla is an explicit state machine of the channel task (queue, blocked senders, in-flight request, timers, promise drops); random interleavings of submissions, replies, timeouts, I/O faults, enable/disable, decode, shutdown, handle drops and abort are recorded under virtual time and validated by TLC: each completion must be the output of a specification step (class included), each request completes exactly once (a second completion has no step, a missing one blocks the next scenario boundary); design level: Client_MC in task / session / serial mode incl. liveness under fairness (the task comes to rest owing nothing); behaviours simulated by TLC from Client.tla replayed on the production task; command / connect-completion races",
